@@ -825,11 +825,11 @@ func (vfs *MemFS) Rename(oldpath, newpath string) error {
 
 	switch oChild.(type) {
 	case *dirNode:
-		// A directory can't replace anything, not even itself (as os.Rename).
-		if !vfs.isNotExist(nErr) {
-			// A directory can't replace a file or a symbolic link.
-			if _, ok := nChild.(*dirNode); !ok {
-				nErr = vfs.err.NotADirectory
+		// A directory can't replace a directory, not even itself (as os.Rename).
+		if _, ok := nChild.(*dirNode); ok && !vfs.isNotExist(nErr) {
+			// The same directory under another spelling of its path: nothing to do (as rename(2)).
+			if nChild == oChild && oldpath != newpath {
+				return nil
 			}
 
 			if vfs.OSType() == avfs.OsWindows {
@@ -842,6 +842,16 @@ func (vfs *MemFS) Rename(oldpath, newpath string) error {
 		// The root directory can't be renamed and a directory can't be moved into itself.
 		if oChild == node(oParent) || strings.HasPrefix(nPI.Path(), oPI.Path()+string(vfs.PathSeparator())) {
 			return &os.LinkError{Op: op, Old: oldpath, New: newpath, Err: vfs.err.InvalidArgument}
+		}
+
+		// A directory can't replace a file or a symbolic link.
+		if !vfs.isNotExist(nErr) {
+			nErr = vfs.err.NotADirectory
+			if vfs.OSType() == avfs.OsWindows {
+				nErr = avfs.ErrWinAccessDenied
+			}
+
+			return &os.LinkError{Op: op, Old: oldpath, New: newpath, Err: nErr}
 		}
 	case *fileNode, *symlinkNode:
 		// Renaming a file to itself or to another hard link of itself does nothing.
